@@ -25,6 +25,98 @@ noncomputable def nlOf (k lin pnl : ℝ) : ℝ := if k > 0.005 then pnl else lin
 theorem lowk_identity (k lin pnl : ℝ) (hk : k ≤ 0.005) : nlOf k lin pnl = lin := by
   unfold nlOf; rw [if_neg (by linarith)]
 
+/-- array-level model of `nonlinear_delta_k = delta_k.copy(); nonlinear_delta_k[mask] = pnl` (numpy boolean-mask
+    assignment into a copy): entries where the mask is true are taken, in order, from `new`; the others from `orig` -/
+def maskScatter {α} : List Bool → List α → List α → List α
+  | true :: ms, _ :: os, n :: ns => n :: maskScatter ms os ns
+  | false :: ms, o :: os, ns => o :: maskScatter ms os ns
+  | _, _, _ => []
+
+/-- C18 (arrays): the result has one entry per wavenumber -/
+theorem maskScatter_length {α} : ∀ (m : List Bool) (orig new : List α), m.length = orig.length →
+    new.length = m.count true → (maskScatter m orig new).length = orig.length := by
+  intro m
+  induction m with
+  | nil => intro orig new h1 _; cases orig <;> simp_all [maskScatter]
+  | cons b ms ih =>
+    intro orig new h1 h2
+    cases orig with
+    | nil => simp at h1
+    | cons o os =>
+      cases b with
+      | false =>
+        simp only [maskScatter, List.length_cons, Nat.add_right_cancel_iff]
+        exact ih os new (by simpa using h1) (by simpa using h2)
+      | true =>
+        cases new with
+        | nil => simp at h2
+        | cons n ns =>
+          simp only [maskScatter, List.length_cons, Nat.add_right_cancel_iff]
+          exact ih os ns (by simpa using h1) (by simpa using h2)
+
+/-- C18 (arrays): wherever the mask is false the entry is the linear one, whatever was computed elsewhere -/
+theorem maskScatter_unmasked {α} : ∀ (m : List Bool) (orig new : List α), m.length = orig.length →
+    new.length = m.count true → ∀ (i : Nat), m[i]? = some false → (maskScatter m orig new)[i]? = orig[i]? := by
+  intro m
+  induction m with
+  | nil => intro orig new _ _ i hi; simp at hi
+  | cons b ms ih =>
+    intro orig new h1 h2 i hi
+    cases orig with
+    | nil => simp at h1
+    | cons o os =>
+      cases b with
+      | false =>
+        cases i with
+        | zero => simp [maskScatter]
+        | succ j =>
+          simp only [maskScatter, List.getElem?_cons_succ]
+          exact ih os new (by simpa using h1) (by simpa using h2) j (by simpa using hi)
+      | true =>
+        cases new with
+        | nil => simp at h2
+        | cons n ns =>
+          cases i with
+          | zero => simp at hi
+          | succ j =>
+            simp only [maskScatter, List.getElem?_cons_succ]
+            exact ih os ns (by simpa using h1) (by simpa using h2) j (by simpa using hi)
+
+/-- C18 (arrays): the masked entries are exactly the computed non-linear values, in order (none lost, none shifted) -/
+theorem maskScatter_masked {α} : ∀ (m : List Bool) (orig new : List α), m.length = orig.length →
+    new.length = m.count true →
+    ((maskScatter m orig new).zip m).filterMap (fun p => if p.2 then some p.1 else none) = new := by
+  intro m
+  induction m with
+  | nil => intro orig new h1 h2; cases orig <;> simp_all [maskScatter]
+  | cons b ms ih =>
+    intro orig new h1 h2
+    cases orig with
+    | nil => simp at h1
+    | cons o os =>
+      cases b with
+      | false =>
+        simp only [maskScatter, List.zip_cons_cons, List.filterMap_cons]
+        simpa using ih os new (by simpa using h1) (by simpa using h2)
+      | true =>
+        cases new with
+        | nil => simp at h2
+        | cons n ns =>
+          simp only [maskScatter, List.zip_cons_cons, List.filterMap_cons]
+          simpa using ih os ns (by simpa using h1) (by simpa using h2)
+
+/-- C18 for whole arrays, any grid (sorted or not, any number of points on either side of the cut): with the mask
+    `k > 0.005` every entry at k ≤ 0.005 h/Mpc is the linear one -/
+theorem lowk_identity_array (ks lins pnl : List ℝ) (h1 : ks.length = lins.length)
+    (h2 : pnl.length = (ks.map (fun k => decide (k > 0.005))).count true)
+    (i : Nat) (k : ℝ) (hk : ks[i]? = some k) (hle : k ≤ 0.005) :
+    (maskScatter (ks.map (fun k => decide (k > 0.005))) lins pnl)[i]? = lins[i]? := by
+  apply maskScatter_unmasked _ _ _ (by simpa using h1) h2
+  simp only [List.getElem?_map, hk, Option.map_some, Option.some.injEq, decide_eq_false_iff_not, not_lt]
+  exact hle
+
+example : maskScatter [false, true, false, true] [1, 2, 3, 4] [20, 40] = [1, 20, 3, 40] := by decide
+
 /-- C18: the result is a function of (k, linear spectrum, z, cosmology, switch) and the three
     spectrum statistics only — in particular `sigma_8` appears nowhere -/
 theorem halofit_inputs :
